@@ -166,6 +166,10 @@ fn write_nodes<'s, W: FmtWrite>(nodes: &[Node], stringifier: &mut Stringifier<'s
             Node::Comment(..) => {
                 comment_skipped = prev_is_text;
             }
+            Node::Text(value) if is_empty_value(value) => {
+                // prints nothing
+                node.stringify_write(stringifier)?;
+            }
             Node::Text(..) => {
                 if prev_is_text && comment_skipped {
                     stringifier.write_str("<!---->")?;
@@ -188,6 +192,8 @@ fn is_children_empty(children: &[Node]) -> bool {
     for n in children {
         match n {
             Node::Comment(..) => {}
+            // `{{ "" }}` prints nothing
+            Node::Text(value) if is_empty_value(value) => {}
             Node::Element(..) | Node::Text(..) | Node::UnknownMetaTag(..) => {
                 return false;
             }
@@ -647,7 +653,7 @@ impl Stringify for Element {
             ElementKind::TemplateRef { target, data } => {
                 stringifier.write_str("template")?;
                 write_named_attr(stringifier, "is", &target.0, &target.1)?;
-                if !data.1.is_empty() {
+                if !is_empty_value(&data.1) {
                     write_named_attr(stringifier, "data", &data.0, &data.1)?;
                 }
             }
@@ -662,7 +668,7 @@ impl Stringify for Element {
             } => {
                 stringifier.write_str("slot")?;
                 write_slot_and_slot_values(stringifier, &common.slot, &common.slot_value_refs)?;
-                if !name.1.is_empty() {
+                if !is_empty_value(&name.1) {
                     write_named_attr(stringifier, "name", &name.0, &name.1)?;
                 }
                 for attr in values.iter() {
